@@ -27,6 +27,32 @@ type resolver struct {
 	redPrec   types.Object // may be nil when reduceProd.Precedence is used directly
 	sw        *ast.SwitchStmt
 	helpers   []*ast.FuncDecl // same-package helpers the closure delegates guards to
+	loserObj  types.Object    // local that the arms set and a single removal after the switch deletes
+}
+
+// removalTarget: call removes one action from the candidate list; returns the variable naming it.
+// Forms: remove(x) with the local helper, or X.DeleteFunc(func(a) bool { return a == x }).
+func (r *resolver) removalTarget(call *ast.CallExpr) types.Object {
+	info := r.pk.TypesInfo
+	if r.removeObj != nil && usesObj(info, call.Fun) == r.removeObj && len(call.Args) == 1 {
+		return usesObj(info, call.Args[0])
+	}
+	if fn := calleeFunc(info, call); fn != nil && fn.Name() == "DeleteFunc" && len(call.Args) == 1 {
+		if fl, ok := ast.Unparen(call.Args[0]).(*ast.FuncLit); ok && len(fl.Body.List) == 1 && len(fl.Type.Params.List) == 1 && len(fl.Type.Params.List[0].Names) == 1 {
+			prm := info.Defs[fl.Type.Params.List[0].Names[0]]
+			if rs, ok := fl.Body.List[0].(*ast.ReturnStmt); ok && len(rs.Results) == 1 {
+				if be, ok := ast.Unparen(rs.Results[0]).(*ast.BinaryExpr); ok && be.Op == token.EQL {
+					if usesObj(info, be.X) == prm {
+						return usesObj(info, be.Y)
+					}
+					if usesObj(info, be.Y) == prm {
+						return usesObj(info, be.X)
+					}
+				}
+			}
+		}
+	}
+	return nil
 }
 
 func findResolver(c *Ctx) *resolver {
@@ -224,24 +250,71 @@ func findResolver(c *Ctx) *resolver {
 		}
 		return true
 	})
-	// decision switch: tagless switch whose arms call remove
+	// decision switch: tagless switch whose arms remove a candidate, or name the one that the
+	// single removal following the switch deletes
+	var removals []*ast.CallExpr
+	ast.Inspect(r.lit.Body, func(n ast.Node) bool {
+		if call, ok := n.(*ast.CallExpr); ok {
+			if fl, isLit := ast.Unparen(call.Fun).(*ast.FuncLit); isLit {
+				_ = fl
+				return true
+			}
+			if t := r.removalTarget(call); t != nil {
+				// the body of the local remove helper is not a removal site itself
+				if r.removeObj == nil || usesObj(info, call.Fun) == r.removeObj || !insideHelper(info, r, call) {
+					removals = append(removals, call)
+				}
+			}
+		}
+		return true
+	})
 	ast.Inspect(r.lit.Body, func(n ast.Node) bool {
 		sw, ok := n.(*ast.SwitchStmt)
 		if !ok || sw.Tag != nil {
 			return true
 		}
-		for _, cl := range sw.Body.List {
-			for _, s := range cl.(*ast.CaseClause).Body {
-				if es, ok := s.(*ast.ExprStmt); ok {
-					if call, ok := es.X.(*ast.CallExpr); ok && usesObj(info, call.Fun) == r.removeObj {
-						r.sw = sw
+		for _, rm := range removals {
+			if containsNode(sw, rm) {
+				r.sw = sw
+			}
+		}
+		if r.sw == nil {
+			for _, rm := range removals {
+				t := r.removalTarget(rm)
+				if rm.Pos() < sw.End() || t == nil || t == r.shiftObj || t == r.reduceObj {
+					continue
+				}
+				assigned := false
+				for _, cl := range sw.Body.List {
+					for _, st := range cl.(*ast.CaseClause).Body {
+						if as, ok := st.(*ast.AssignStmt); ok && len(as.Lhs) == 1 && usesObj(info, as.Lhs[0]) == t {
+							assigned = true
+						}
 					}
+				}
+				if assigned {
+					r.sw, r.loserObj = sw, t
 				}
 			}
 		}
 		return true
 	})
 	return r
+}
+
+// insideHelper: call lies inside the local remove helper's own body.
+func insideHelper(info *types.Info, r *resolver, call *ast.CallExpr) bool {
+	in := false
+	ast.Inspect(r.outer.Body, func(n ast.Node) bool {
+		as, ok := n.(*ast.AssignStmt)
+		if ok && len(as.Lhs) == 1 && len(as.Rhs) == 1 && usesObj(info, as.Lhs[0]) == r.removeObj {
+			if fl, ok := as.Rhs[0].(*ast.FuncLit); ok && containsNode(fl, call) {
+				in = true
+			}
+		}
+		return true
+	})
+	return in
 }
 
 func selRootIdent(e ast.Expr) ast.Expr {
@@ -290,20 +363,30 @@ func (r *resolver) removedRole(body []ast.Stmt) string {
 	info := r.pk.TypesInfo
 	role := ""
 	n := 0
+	classify := func(o types.Object) {
+		n++
+		switch o {
+		case r.shiftObj:
+			role = "shift"
+		case r.reduceObj:
+			role = "reduce"
+		default:
+			role = "?"
+		}
+	}
 	for _, s := range body {
 		ast.Inspect(s, func(m ast.Node) bool {
-			call, ok := m.(*ast.CallExpr)
-			if !ok || usesObj(info, call.Fun) != r.removeObj || len(call.Args) != 1 {
-				return true
-			}
-			n++
-			switch usesObj(info, call.Args[0]) {
-			case r.shiftObj:
-				role = "shift"
-			case r.reduceObj:
-				role = "reduce"
-			default:
-				role = "?"
+			switch x := m.(type) {
+			case *ast.CallExpr:
+				if r.loserObj == nil {
+					if t := r.removalTarget(x); t != nil {
+						classify(t)
+					}
+				}
+			case *ast.AssignStmt:
+				if r.loserObj != nil && len(x.Lhs) == 1 && len(x.Rhs) == 1 && usesObj(info, x.Lhs[0]) == r.loserObj {
+					classify(usesObj(info, x.Rhs[0]))
+				}
 			}
 			return true
 		})
@@ -440,52 +523,155 @@ func rulePREC2(c *Ctx) {
 	spell := tokenSpellings(pk)
 	want := map[string]string{"@left": "Left", "@right": "Right"}
 	got := map[string]string{}
-	ast.Inspect(fd.Body, func(n ast.Node) bool {
-		cc, ok := n.(*ast.CaseClause)
-		if !ok || len(cc.List) != 1 {
-			return true
-		}
-		sp := spell[usesObj(info, cc.List[0])]
-		for _, s := range cc.Body {
-			if as, ok := s.(*ast.AssignStmt); ok && len(as.Lhs) == 1 && isField(info, as.Lhs[0], "internal/ast", "ProdQualifier", "Associativity") {
-				if k, ok := usesObj(info, as.Rhs[0]).(*types.Const); ok {
-					got[sp] = k.Name()
+	// tokTypeFacts: the token-type constants that `tok.Type == K` path facts establish at node n
+	tokTypeFacts := func(fn ast.Node, n ast.Node, tok types.Object) []types.Object {
+		var out []types.Object
+		for _, f := range pathConds(info, parents(fn), n) {
+			l, op, r, ok := cmpFact(f.e, !f.neg)
+			if !ok || op != token.EQL {
+				continue
+			}
+			for _, pr := range [][2]ast.Expr{{l, r}, {r, l}} {
+				sel, isSel := ast.Unparen(pr[0]).(*ast.SelectorExpr)
+				if isSel && sel.Sel.Name == "Type" && usesObj(info, sel.X) == tok {
+					if k, isK := usesObj(info, pr[1]).(*types.Const); isK {
+						out = append(out, k)
+					}
 				}
 			}
 		}
-		return true
-	})
+		return out
+	}
+	// values stored into ProdQualifier.<field>: assignments and composite-literal entries
+	storesTo := func(field string) []ast.Expr {
+		var out []ast.Expr
+		ast.Inspect(fd.Body, func(n ast.Node) bool {
+			switch x := n.(type) {
+			case *ast.AssignStmt:
+				for i, l := range x.Lhs {
+					if isField(info, l, "internal/ast", "ProdQualifier", field) {
+						if len(x.Lhs) == len(x.Rhs) {
+							out = append(out, x.Rhs[i])
+						} else if len(x.Rhs) == 1 {
+							out = append(out, x.Rhs[0])
+						}
+					}
+				}
+			case *ast.CompositeLit:
+				if typeIs(info.TypeOf(x), "internal/ast", "ProdQualifier") {
+					if v := kvOf(x, field); v != nil {
+						out = append(out, v)
+					}
+				}
+			}
+			return true
+		})
+		return out
+	}
+	assocTok := paramObj(info, fd, 0)
+	for _, v := range storesTo("Associativity") {
+		if k, ok := usesObj(info, v).(*types.Const); ok {
+			for _, tk := range tokTypeFacts(fd, v, assocTok) {
+				got[spell[tk]] = k.Name()
+			}
+			continue
+		}
+		// through a helper applied to the token: its constant returns, by the token type they are
+		// reached under
+		call, ok := ast.Unparen(v).(*ast.CallExpr)
+		if !ok {
+			continue
+		}
+		hf := calleeFunc(info, call)
+		if hf == nil || hf.Pkg() != pk.Types {
+			continue
+		}
+		h := p.funcDecls[hf.Origin()]
+		if h == nil || h.Body == nil {
+			continue
+		}
+		for i, a := range call.Args {
+			if usesObj(info, a) != assocTok {
+				continue
+			}
+			hp := paramObj(info, h, i)
+			inspectNoLit(h.Body, func(m ast.Node) bool {
+				rs, ok := m.(*ast.ReturnStmt)
+				if !ok || len(rs.Results) != 1 {
+					return true
+				}
+				if k, ok := usesObj(info, rs.Results[0]).(*types.Const); ok {
+					for _, tk := range tokTypeFacts(h, rs, hp) {
+						got[spell[tk]] = k.Name()
+					}
+				}
+				return true
+			})
+		}
+	}
 	for sp, k := range want {
 		c.check(got[sp] == k, rule, "parser.on_parser_qualif/assoc("+sp+")", p.Pos(fd.Pos()), sp+" => ast."+k, fmt.Sprintf("%s is mapped to ast.%s, not ast.%s", sp, got[sp], k))
 	}
 	// the level comes from the NUM parameter
 	okNum := false
-	ast.Inspect(fd.Body, func(n ast.Node) bool {
-		as, ok := n.(*ast.AssignStmt)
-		if !ok || len(as.Rhs) != 1 {
-			return true
-		}
-		call, ok := as.Rhs[0].(*ast.CallExpr)
-		if !ok || len(as.Lhs) < 1 || !isField(info, as.Lhs[0], "internal/ast", "ProdQualifier", "Precedence") {
-			return true
-		}
+	numTok := paramObj(info, fd, 2)
+	isDecimalParse := func(call *ast.CallExpr) bool {
 		full := fullName(calleeFunc(info, call))
 		if full == "strconv.Atoi" {
-			okNum = true
+			return true
 		}
 		if full == "strconv.ParseInt" && len(call.Args) == 3 {
 			if b, ok := constInt(info, call.Args[1]); ok && b == 10 {
+				return true
+			}
+		}
+		return false
+	}
+	for _, v := range storesTo("Precedence") {
+		call, ok := ast.Unparen(v).(*ast.CallExpr)
+		if !ok {
+			continue
+		}
+		if isDecimalParse(call) {
+			if usesObj(info, selRootIdent(stripConv(info, call.Args[0]))) == numTok {
 				okNum = true
 			}
+			continue
 		}
-		if okNum {
-			// argument must be the third parameter's text (the NUM token)
-			if usesObj(info, selRootIdent(stripConv(info, call.Args[0]))) != paramObj(info, fd, 2) {
-				okNum = false
+		hf := calleeFunc(info, call)
+		if hf == nil || hf.Pkg() != pk.Types {
+			continue
+		}
+		h := p.funcDecls[hf.Origin()]
+		if h == nil || h.Body == nil {
+			continue
+		}
+		for i, a := range call.Args {
+			if usesObj(info, a) != numTok {
+				continue
 			}
+			hp := paramObj(info, h, i)
+			// n, err := strconv.Atoi(string(param.Str)) ... return n
+			ast.Inspect(h.Body, func(m ast.Node) bool {
+				as, ok := m.(*ast.AssignStmt)
+				if !ok || len(as.Rhs) != 1 {
+					return true
+				}
+				pc, ok := ast.Unparen(as.Rhs[0]).(*ast.CallExpr)
+				if !ok || !isDecimalParse(pc) || usesObj(info, selRootIdent(stripConv(info, pc.Args[0]))) != hp {
+					return true
+				}
+				res := usesObj(info, as.Lhs[0])
+				inspectNoLit(h.Body, func(k ast.Node) bool {
+					if rs, ok := k.(*ast.ReturnStmt); ok && len(rs.Results) == 1 && usesObj(info, stripConv(info, rs.Results[0])) == res && res != nil {
+						okNum = true
+					}
+					return true
+				})
+				return true
+			})
 		}
-		return true
-	})
+	}
 	c.check(okNum, rule, "parser.on_parser_qualif/level", p.Pos(fd.Pos()), "the level is the decimal value of the NUM token", "the level is not parsed as the decimal value of the NUM token (e.g. base 0 reads 010 as octal)")
 
 	// ParserProd.RunPass copies both
@@ -503,24 +689,39 @@ func rulePREC2(c *Ctx) {
 			if len(x.Lhs) == 1 && isField(info2, x.Lhs[0], "parsergen/lr1", "Prod", "Precedence") && isField(info2, x.Rhs[0], "internal/ast", "ProdQualifier", "Precedence") {
 				okPrec = true
 			}
-		case *ast.SwitchStmt:
-			if x.Tag == nil || !isField(info2, x.Tag, "internal/ast", "ProdQualifier", "Associativity") {
-				return true
+		}
+		return true
+	})
+	// every store of a constant into Prod.Associativity happens under the fact
+	// `qualifier.Associativity == K` (switch arm, if/else-if chain, guard): K => stored constant
+	par2 := parents(rp)
+	ast.Inspect(rp.Body, func(n ast.Node) bool {
+		as, ok := n.(*ast.AssignStmt)
+		if !ok || len(as.Lhs) != 1 || len(as.Rhs) != 1 || !isField(info2, as.Lhs[0], "parsergen/lr1", "Prod", "Associativity") {
+			return true
+		}
+		k2, ok := usesObj(info2, as.Rhs[0]).(*types.Const)
+		if !ok {
+			arms["(non-constant)"] = exprString(as.Rhs[0])
+			return true
+		}
+		found := false
+		for _, f := range pathConds(info2, par2, as) {
+			l, op, r, ok := cmpFact(f.e, !f.neg)
+			if !ok || op != token.EQL {
+				continue
 			}
-			for _, cl := range x.Body.List {
-				cc := cl.(*ast.CaseClause)
-				for _, l := range cc.List {
-					for _, s := range cc.Body {
-						if as, ok := s.(*ast.AssignStmt); ok && isField(info2, as.Lhs[0], "parsergen/lr1", "Prod", "Associativity") {
-							if k1, ok := usesObj(info2, l).(*types.Const); ok {
-								if k2, ok := usesObj(info2, as.Rhs[0]).(*types.Const); ok {
-									arms[k1.Name()] = k2.Pkg().Name() + "." + k2.Name()
-								}
-							}
-						}
+			for _, pr := range [][2]ast.Expr{{l, r}, {r, l}} {
+				if isField(info2, pr[0], "internal/ast", "ProdQualifier", "Associativity") {
+					if k1, ok := usesObj(info2, pr[1]).(*types.Const); ok {
+						arms[k1.Name()] = k2.Pkg().Name() + "." + k2.Name()
+						found = true
 					}
 				}
 			}
+		}
+		if !found {
+			arms["(unconditional)"] = k2.Pkg().Name() + "." + k2.Name()
 		}
 		return true
 	})
@@ -702,23 +903,53 @@ func ruleCFL2(c *Ctx) {
 					c.bad(rule, construct, p.Pos(as.Pos()), "HasConflicts is assigned `%s`: a later cell can clear a conflict recorded for an earlier one (the flag must only ever be set)", exprString(as.Rhs[0]))
 					return true
 				}
-				// control dependence: Len() != 1 (or > 1) and !resolveConflict(...)
-				var conds []string
-				for q := par[as]; q != nil; q = par[q] {
-					if ifs, ok := q.(*ast.IfStmt); ok && containsNode(ifs.Body, as) {
-						conds = append(conds, exprString(ifs.Cond))
+				// path facts: the cell holds more than one action, and the resolver (whatever it
+				// is called, closure or function) returned false for it; nothing else
+				info2 := pk.TypesInfo
+				defs2 := localDefs(info2, fd)
+				isResolverCall := func(e ast.Expr) bool {
+					call, ok := ast.Unparen(resolveVia(info2, defs2, e)).(*ast.CallExpr)
+					if !ok {
+						return false
 					}
+					if id, ok := ast.Unparen(call.Fun).(*ast.Ident); ok && r.lit != nil {
+						if o := usesObj(info2, id); o != nil && ast.Unparen(defs2[o]) == ast.Expr(r.lit) {
+							return true
+						}
+					}
+					if fn := calleeFunc(info2, call); fn != nil {
+						if d := p.funcDecls[fn.Origin()]; d != nil && r.sw != nil && containsNode(d, r.sw) {
+							return true
+						}
+					}
+					return false
 				}
 				okLen, okRes := false, false
-				for _, cd := range conds {
-					if strings.HasSuffix(cd, ".Len() != 1") || strings.HasSuffix(cd, ".Len() > 1") || strings.HasSuffix(cd, ".Len() >= 2") {
-						okLen = true
+				var conds []string
+				for _, f := range pathConds(info2, par, as) {
+					ff := flattenNot(f)
+					conds = append(conds, map[bool]string{false: "", true: "!"}[ff.neg]+exprString(ff.e))
+					if l, op, rr, ok := cmpFact(ff.e, !ff.neg); ok {
+						if v, isC := constInt(info2, rr); isC {
+							if call, isCall := l.(*ast.CallExpr); isCall {
+								if fn := calleeFunc(info2, call); fn != nil && fn.Name() == "Len" {
+									if (op == token.NEQ && v == 1) || (op == token.GTR && v == 1) || (op == token.GEQ && v == 2) {
+										okLen = true
+										continue
+									}
+								}
+							}
+						}
 					}
-					if strings.HasPrefix(cd, "!resolveConflict(") {
+					if ff.neg && isResolverCall(ff.e) {
 						okRes = true
+						continue
 					}
+					okLen, okRes = false, false
+					conds = append(conds, "(unexpected)")
+					break
 				}
-				c.check(okLen && okRes && len(conds) == 2, rule, construct, p.Pos(as.Pos()),
+				c.check(okLen && okRes, rule, construct, p.Pos(as.Pos()),
 					"a cell with more than one action sets HasConflicts unless the precedence rule settled it", fmt.Sprintf("HasConflicts = true is guarded by %v, not exactly by `Len() != 1` and `!resolveConflict(...)`", conds))
 				return true
 			})
@@ -755,6 +986,22 @@ func ruleCFL2(c *Ctx) {
 				}
 			}
 		}
+	}
+	if !okTwo && r.sw != nil && r.lit != nil {
+		// equivalent form: the decision is only reached under Len() == 2
+		okTwo = holds(pathConds(info, parents(r.lit), r.sw), func(e ast.Expr, pos bool) bool {
+			l, op, rr, ok := cmpFact(e, pos)
+			if !ok || op != token.EQL {
+				return false
+			}
+			v, isC := constInt(info, rr)
+			call, isCall := l.(*ast.CallExpr)
+			if !isC || v != 2 || !isCall {
+				return false
+			}
+			fn := calleeFunc(info, call)
+			return fn != nil && fn.Name() == "Len"
+		})
 	}
 	c.check(okTwo, rule, "lr1.resolveConflicts/two-actions-only", p.Pos(r.lit.Pos()), "only cells with exactly two candidates are ever resolved", "cells with more than two candidates can be 'resolved'")
 	if r.sw != nil {
